@@ -1247,7 +1247,7 @@ func (e *Engine) c04Holder(r *Report) {
 	// when the call ran on a cached context (its partial writes are dropped; C18 decides the write-back).
 	n8 := 0
 	for _, fn := range scope {
-		if !strings.Contains(fnPkgPath(fn), "x/crosschain/") {
+		if !strings.Contains(fnPkgPath(fn), "x/crosschain/") && !strings.Contains(fnPkgPath(fn), "x/ibc/middleware") {
 			continue
 		}
 		var fns []*ssa.Function
